@@ -97,6 +97,13 @@ fn judge(rep: &mut Report, sc: &Scenario, main_bytes: &[(String, Vec<u8>)], lib_
         if c.expect != it.expect { bad(format!("generator intent and oracle predicate disagree (case {:?}): intent {:?}, oracle {:?} ({})\n{}", rep.cur, it, c.expect, c.why, sc.main.render())); }
     }
     let effs = oracle::effects(sc, &cands, false, false);
+    // open: the expected effects depend on whether the members of a class without named name still map (the statements do not say)
+    {
+        oracle::HALF_NAMED.with(|h| h.set(true));
+        let alt = oracle::effects(sc, &cands, false, false);
+        oracle::HALF_NAMED.with(|h| h.set(false));
+        if alt != effs { rep.count("open.scenario_depends_on_members_of_a_class_without_named_name (not judged)"); return; }
+    }
     let cal_q = maps::to_quill::<2, (Official, Intermediary)>(&sc.calamus, &mut Ins::Shuffle(&mut rng.fork())).unwrap_or_else(|e| bad(format!("calamus not expressible: {e:#}")));
     let map_q = maps::to_quill::<2, (Intermediary, Named)>(&sc.mappings, &mut Ins::Shuffle(&mut rng.fork())).unwrap_or_else(|e| bad(format!("mappings not expressible: {e:#}\n{}", sc.mappings.render())));
     let libs: Vec<PJ> = lib_bytes.iter().map(|b| parsed_jar(b, rng)).collect();
